@@ -402,21 +402,13 @@ fn run_history(reg: Reg, front: Front, abp: bool, syms: &[Sym], rng: &mut Prng, 
             Sym::JoinBenign => {
                 let ja = JoinAcceptDesc { join_nonce: rng.below(1 << 24) as u32, net_id: 1, dev_addr: rng.next_u32(), dl_settings: 0, rx_delay: 1, cf_list: None };
                 let f = encode_join_accept(&creds.app_key, &ja);
-                if rng.bool() {
-                    script.rx1.push(f);
-                } else {
-                    script.rx2.push(f);
-                }
+                place_join_accept(front, f, &mut script, rng, col);
                 action = Some(Action::Join);
             }
             Sym::JoinHostile(dl) => {
                 col.event("hostile_joinaccept_accepted");
                 let f = hostile_join_accept(reg, &creds.app_key, *dl, rng);
-                if rng.bool() {
-                    script.rx1.push(f);
-                } else {
-                    script.rx2.push(f);
-                }
+                place_join_accept(front, f, &mut script, rng, col);
                 action = Some(Action::Join);
             }
             Sym::Rx1(h) => {
@@ -459,6 +451,13 @@ fn run_history(reg: Reg, front: Front, abp: bool, syms: &[Sym], rng: &mut Prng, 
                     let mut fs = vec![];
                     for _ in 0..n {
                         fs.push(w.frame(*h, rng, col));
+                    }
+                    // an accept of the device's own network that comes too late (or out of the blue) is one
+                    // more frame a Class C device may hear while it listens
+                    if rng.chance(1, 6) {
+                        let ja = JoinAcceptDesc { join_nonce: rng.below(1 << 24) as u32, net_id: 1, dev_addr: rng.next_u32(), dl_settings: 0, rx_delay: 1, cf_list: None };
+                        fs.insert(rng.below(fs.len() as u64 + 1) as usize, encode_join_accept(&creds.app_key, &ja));
+                        col.event("joinaccept_heard_in_rxc_listen");
                     }
                     listen = Some(fs);
                 }
@@ -728,4 +727,21 @@ fn join_marathon(reg: Reg, front: Front, rng: &mut Prng, col: &mut Collector) {
         col.event("still_transmits");
     }
     col.eval(&format!("{}|{}|join-marathon|bias={:?}", front.name(), reg.name(), bias.map(|b| b.1)));
+}
+
+/// A JoinAccept arrives in RX1 or RX2 - or, for a Class C device, one time in three while it listens
+/// continuously before RX1 or between the windows.
+fn place_join_accept(front: Front, f: Vec<u8>, script: &mut Script, rng: &mut Prng, col: &mut Collector) {
+    if front == Front::AsyncC && rng.chance(1, 3) {
+        col.event("joinaccept_in_classc_gap");
+        if rng.bool() {
+            script.pre_rx1.push(f);
+        } else {
+            script.between.push(f);
+        }
+    } else if rng.bool() {
+        script.rx1.push(f);
+    } else {
+        script.rx2.push(f);
+    }
 }
